@@ -63,6 +63,24 @@ class Report:
         else:
             self.ok(rule, "floor:" + what, "%d instance(s) >= floor %d" % (count, floor))
 
+    def stale(self, rule, key, what):
+        """An entry of a table of *permitted exceptions* whose site is no longer there.  A permission nobody uses cannot hide
+        a violation, and code that stopped needing it (an unwrap replaced by `?`, a swallowed error now propagated, a helper
+        whose body moved) is not a violation of anything: recorded, counted, not an alarm.  `stale_floor` keeps the table
+        from rotting silently: most of it must still match."""
+        self.obligations.append({"rule": rule, "instance": "unused table entry: " + key, "ok": True,
+                                 "detail": "%s — the permitted site is not present in this tree (entry unused)" % what, "site": ""})
+        self._stale = getattr(self, "_stale", {})
+        self._stale[rule] = self._stale.get(rule, 0) + 1
+
+    def stale_floor(self, rule, what, table_size):
+        n = getattr(self, "_stale", {}).get(rule, 0)
+        if table_size and n * 2 > table_size:
+            self.fail(rule, "floor:" + what, "cannot establish %s: %d of the %d tabled sites are not found any more "
+                      "(anchors renamed or call resolution broken?): the table must be re-confirmed" % (what, n, table_size))
+        else:
+            self.ok(rule, "floor:" + what, "%d of %d tabled sites present" % (table_size - n, table_size))
+
     def sample(self, s):
         if len(self.samples) < 40:
             self.samples.append(s)
@@ -164,3 +182,9 @@ class Retag:
 
     def floor(self, rule, *a, **kw):
         return self._r.floor(self._rule, *a, **kw)
+
+    def stale(self, rule, *a, **kw):
+        return self._r.stale(self._rule, *a, **kw)
+
+    def stale_floor(self, rule, *a, **kw):
+        return self._r.stale_floor(self._rule, *a, **kw)
